@@ -78,6 +78,7 @@ def gen_cases(tier: str, seed: int):
     for k in range(16 if tier == "quick" else 64):
         yield {"kind": "sessions", "seed": r.randrange(1 << 30)}
         yield {"kind": "tokens", "seed": r.randrange(1 << 30)}
+        yield {"kind": "reshape", "seed": r.randrange(1 << 30)}
     # zoo templates in lock-step
     reps = 2 if tier == "quick" else 30
     tags = [z["tag"] for z in zoo.ZOO]
@@ -294,6 +295,8 @@ def run_case(case: dict, env: core.Env) -> None:
         return _sessions(case, env)
     if kind == "tokens":
         return _tokens(case, env)
+    if kind == "reshape":
+        return _reshape(case, env)
     if kind == "typed":
         env.cover("typed_types", "+".join(sorted(set(case["types"]))))
         if not _compare(env, case["sql"], "typed", case["types"]):
@@ -372,6 +375,55 @@ def _sessions(case: dict, env: core.Env) -> None:
                 c.close()
             except Exception:  # noqa: BLE001
                 pass
+
+
+def _reshape(case: dict, env: core.Env) -> None:
+    """Two logins sharing data: one re-runs the same statement text after the other changed the table's shape.
+    The HTTP answers must equal those of two in-process connections doing the same."""
+    r = random.Random(case["seed"])
+    uid = r.randrange(1 << 30)
+    env.count("cmp_sessions")
+    ha, hb = (_connect_http(isolated=False, database=f"rs{uid}", schema="s") for _ in range(2))
+    fs = core.new_fs()
+    la, lb = fs.connect(f"rs{uid}", "s"), fs.connect(f"rs{uid}", "s")
+    shapes = ["(A NUMBER(10,2), B VARCHAR)", "(A NUMBER(12,4), B VARCHAR)", "(A FLOAT, B DATE, C INT)", "(B VARCHAR)", "(A TIMESTAMP_NTZ, B BOOLEAN)"]
+    vals = {"(A NUMBER(10,2), B VARCHAR)": "(12.34, 'x')", "(A NUMBER(12,4), B VARCHAR)": "(12.3456, 'y')", "(A FLOAT, B DATE, C INT)": "(1.5, '2020-01-02', 3)",
+            "(B VARCHAR)": "('only')", "(A TIMESTAMP_NTZ, B BOOLEAN)": "('2020-01-02 03:04:05.678901', TRUE)"}
+    try:
+        seq = [r.choice(shapes) for _ in range(r.randint(2, 4))]
+        sql = r.choice(["SELECT * FROM T", "SELECT A, B FROM T", "SELECT B FROM T"])
+        for shape in seq:
+            for c_ in (hb, lb):
+                cc = c_.cursor()
+                cc.execute(f"CREATE OR REPLACE TABLE T {shape}")
+                cc.execute(f"INSERT INTO T VALUES {vals[shape]}")
+            if r.random() < 0.3:
+                for c_ in (hb, lb):
+                    c_.cursor().execute("ALTER TABLE T ADD COLUMN EXTRA INT")
+            outs = []
+            for c_ in (ha, la):
+                cur = c_.cursor()
+                try:
+                    cur.execute(sql)
+                    rows = cur.fetchall()
+                    desc = [tuple(x) for x in cur.description]
+                    outs.append(("ok", _rows_canon(rows), desc))
+                except Exception as e:  # noqa: BLE001
+                    ei = core.exc_info(e)
+                    outs.append(("err", ei["cls"], ei.get("errno")))
+            env.count("http_statements")
+            if outs[0] != outs[1]:
+                what = "error" if outs[0][0] != outs[1][0] else ("rows" if outs[0][1] != outs[1][1] else "description")
+                env.witness(f"C17/reshape-by-other-login/{what}-differs", f"{sql!r} after CREATE OR REPLACE TABLE T {shape}: http {str(outs[0])[:300]} in-process {str(outs[1])[:300]}")
+                break
+        env.nontrivial(("reshape", case["seed"]))
+    finally:
+        for c_ in (ha, hb):
+            try:
+                c_.close()
+            except Exception:  # noqa: BLE001
+                pass
+        fs.duck_conn.close()
 
 
 def _tokens(case: dict, env: core.Env) -> None:
